@@ -341,6 +341,9 @@ func runPair(l *PairLine, pkg *reg.Pkg, x *conc.Ctx, mode string, res *rep.Resul
 				opts = append(opts, &ygot.MergeOverwriteExistingFields{})
 				want = l.CompatOw
 				name = "MergeStructs(overwrite)"
+				// fresh inputs: where the first result aliases an input (a C04 matter), the
+				// Scramble below has changed ra/rb, which must not leak into this C05 verdict
+				ra, rb = fresh(&l.A), fresh(&l.B)
 			}
 			var m ygot.GoStruct
 			merr, pan := guard(func() error {
